@@ -293,14 +293,15 @@ def main():
     jobs = []
     cdir = os.path.join(CORPUS, prop)
     if a.replay:
-        jobs.append(dict(file=a.replay, label="replay:" + a.replay))
-        # also re-run the inputs of the replay through the *current* implementation
-        rj = P.replay_jobs(prop, a.replay, exes) if hasattr(P, "replay_jobs") else []
-        jobs += rj
+        # re-run the inputs of the replay through the *current* implementation; if no harness can re-execute the
+        # file, fall back to judging the recorded lines
+        rj = P.replay_jobs(prop, a.replay, exes)
+        jobs += rj if rj else [dict(file=a.replay, label="recorded:" + a.replay)]
     else:
         if os.path.isdir(cdir):
+            # corpus: minimised inputs of past disagreements / seeded changes, re-executed against the current headers
             for fn in sorted(os.listdir(cdir)):
-                jobs += P.corpus_jobs(prop, os.path.join(cdir, fn), exes)
+                jobs += P.replay_jobs(prop, os.path.join(cdir, fn), exes)
         jobs += cfg["streams"](tier, seed, exes)
     results = []
     with cf.ThreadPoolExecutor(max_workers=NCPU) as ex:
